@@ -41,14 +41,14 @@ func init() {
 
 type lifeNullLogger struct{}
 
-func (lifeNullLogger) Debug(string, ...any)          {}
-func (lifeNullLogger) Info(string, ...any)           {}
-func (lifeNullLogger) Warn(string, ...any)           {}
-func (lifeNullLogger) Error(string, ...any)          {}
-func (lifeNullLogger) Fatal(string, ...any)          {}
-func (l lifeNullLogger) With(...any) logger.Logger   { return l }
-func (lifeNullLogger) Level() logger.LogLevel        { return logger.LogLevel(0) }
-func (lifeNullLogger) SetLevel(logger.LogLevel)      {}
+func (lifeNullLogger) Debug(string, ...any)        {}
+func (lifeNullLogger) Info(string, ...any)         {}
+func (lifeNullLogger) Warn(string, ...any)         {}
+func (lifeNullLogger) Error(string, ...any)        {}
+func (lifeNullLogger) Fatal(string, ...any)        {}
+func (l lifeNullLogger) With(...any) logger.Logger { return l }
+func (lifeNullLogger) Level() logger.LogLevel      { return logger.LogLevel(0) }
+func (lifeNullLogger) SetLevel(logger.LogLevel)    {}
 
 // ---- A/B/C: the pure backoff step ----
 
@@ -663,7 +663,9 @@ func c11ModelScript(s c11Scenario) (string, int) {
 			a = append(a, "!"+x)
 		}
 	}
-	join := func(e int) { add(fmt.Sprintf("joinSeal:%d", e), fmt.Sprintf("joinStop:%d", e), fmt.Sprintf("joinDone:%d", e)) }
+	join := func(e int) {
+		add(fmt.Sprintf("joinSeal:%d", e), fmt.Sprintf("joinStop:%d", e), fmt.Sprintf("joinDone:%d", e))
+	}
 	up := func() { // the served generation gets selected
 		if role == "passive" {
 			add("envAccept")
